@@ -439,6 +439,24 @@ pub fn main(args: &Args) -> std::io::Result<()> {
                     bad = true;
                 }
             }
+            // variable width: the width at a vertex is the line width times the (interpolated) first attribute at its source
+            if cfg.var_width {
+                let a0 = |id: u32| tables.endpoints.get(&id).and_then(|e| e.1.first().copied());
+                let want = match v.src {
+                    VertexSource::Endpoint { id } => a0(id.0),
+                    VertexSource::Edge { from, to, t } => match (a0(from.0), a0(to.0)) {
+                        (Some(a), Some(b)) => Some(a * (1.0 - t) + b * t),
+                        _ => None,
+                    },
+                };
+                if let Some(wf) = want {
+                    let want_w = cfg.width * wf;
+                    if (v.width - want_w).abs() > 1e-4 * want_w.abs().max(1e-3) {
+                        st.fail(jobj(&[("what", jstr("line_width at a vertex is not the line width times the width attribute at its source")), ("input", jstr(&format!("expected {} :: {}", want_w, vl())))]));
+                        bad = true;
+                    }
+                }
+            }
             // the source names an endpoint or an edge of the input, and position_on_path is where it says
             let q = (v.on_path.x as f64, v.on_path.y as f64);
             let slack = cfg.tol as f64 + 8.0 * ulp;
